@@ -9,6 +9,7 @@ publication (no extrapolation)."""
 import re
 
 from . import sched_common as sc
+from . import announce
 from .. import common
 from ..schedlib import CACHE, layout, model_request, run_impl
 
@@ -148,9 +149,26 @@ def run(ctx, res):
     check_net([gen_net(ctx.rng) for _ in range(ctx.n(120, 2500))], res)
     from ..schedlib import netc_request
     check_net([gen_netc(ctx.rng) for _ in range(ctx.n(120, 2500))], res, request=netc_request)
+    # "pull at the announced time": the package's own time-stepped components announce the time they then pull at, with
+    # fixed and calendar steps (engines/announce.py)
+    for _ in range(ctx.n(60, 800)):
+        c = announce.gen(ctx.rng)
+        impl = announce.run(c)
+        res.case(c, len(impl["log"]) >= 4)
+        res.count("part", "announce/" + c["comp"])
+        o = announce.oracle(c, impl)
+        if o:
+            res.fail(c, o[0], o[1])
 
 
 def search(ctx, res, divergences, broken):
+    for _ in range(300):
+        c = announce.gen(ctx.rng)
+        res.case(c, True)
+        o = announce.oracle(c, announce.run(c))
+        if o:
+            res.fail(c, o[0], o[1], None)
+            return
     specs = [d["case"] for d in divergences if d.get("case")] + [gen(ctx) for _ in range(ctx.n(1500, 20000))]
     for s in specs:
         impl = run_impl(s)
@@ -162,6 +180,8 @@ def search(ctx, res, divergences, broken):
 
 
 def shrink(ctx, f):
+    if f["case"].get("part") == "announce":
+        return f
     sig = f.get("signature")
 
     def still(t):
@@ -177,6 +197,10 @@ def shrink(ctx, f):
 
 def replay(ctx, rp):
     case = rp.get("input") or (rp.get("diverging_case") or {}).get("case")
+    if case.get("part") == "announce":
+        impl = announce.run(case)
+        o = announce.oracle(case, impl)
+        return {"fails": bool(o), "oracle": o, "log": impl["log"]}
     impl = run_impl(case)
     o = oracle(case, impl)
     req, order = model_request(case)
